@@ -559,7 +559,8 @@ class HamacherSum(SNorm):
         """
         a = scalar(a)
         b = scalar(b)
-        return np.where(a * b != 1.0, (a + b - 2.0 * a * b) / (1.0 - a * b), 1.0)
+        # the quotient is at most 1 for a, b in [0, 1], but rounded it may exceed 1 by one ulp (e.g. a=1, b=0.1)
+        return np.minimum(1.0, np.where(a * b != 1.0, (a + b - 2.0 * a * b) / (1.0 - a * b), 1.0))
 
 
 class Maximum(SNorm):
